@@ -462,6 +462,7 @@ type Iter struct {
 type Skip struct {
 	Z, R0, Ct0, Hint bool
 	OnlyIter         int // 0: the skips apply to every iteration; k>0: only to iteration k (1-based)
+	ChallengeXor     []byte // rogue signer: XORed into the 32-byte challenge seed c~ of every iteration BEFORE the challenge polynomial, z and the hints are derived from it (the published c~ is then not H(mu || w1))
 	ForceReject      int // the first ForceReject iterations are rejected whatever their values (exit "forced"; nothing is computed for them)
 	// StopAt >= 0: emit the signature of iteration StopAt regardless of its checks (only the skipped ones are ignored).
 }
@@ -505,6 +506,11 @@ func (k *Key) Sign(msg []byte, skip Skip) *SignResult {
 			w1p = append(w1p, PackW1(&w1[i])...)
 		}
 		ctilde := shake256(32, mu, w1p)
+		for x := range skip.ChallengeXor {
+			if x < len(ctilde) {
+				ctilde[x] ^= skip.ChallengeXor[x]
+			}
+		}
 		c := SampleInBall(ctilde)
 		var z [L]Poly
 		for i := 0; i < L; i++ {
